@@ -359,6 +359,10 @@ class PurityWorld:
                 )
                 if persist:
                     m["params0"][k] = now.get(k)
+                    # the object now carries a hyper-parameter it was not constructed with:
+                    # a later refit starts from other settings than a fresh estimator, so
+                    # comparing the two would only re-report this change in other words
+                    m["params_changed_by_fit"] = True
 
     # ---- main
     def run(self):
@@ -640,6 +644,9 @@ class PurityWorld:
         obj = self.objs[name]
         kind = m["kind"]
         m["twin"] = None
+        if m.get("params_changed_by_fit"):
+            self.count("refit_not_compared_after_reported_parameter_change")
+            return
         if not self.comparable(name, op["args"]):
             return
         t = self.twin(name, op)
